@@ -14,6 +14,7 @@ import (
 	"net/http"
 	"os"
 	"testing"
+	"time"
 )
 
 // Log messages and keys.
@@ -109,6 +110,7 @@ func (s *Server) outputHandler(w http.ResponseWriter, r *http.Request) {
 		r.Body,
 		r.PathValue(idParam),
 	)
+	s.abandonRequestBody(w)
 }
 
 // inOutHandler handles both input and output for a shell.
@@ -137,6 +139,16 @@ func (s *Server) inOutHandler(w http.ResponseWriter, r *http.Request) {
 		w,
 		r.Body,
 	)
+	s.abandonRequestBody(w)
+}
+
+// abandonRequestBody makes sure the HTTP library doesn't wait for the rest of
+// a request body we're no longer interested in, e.g. after rejecting a
+// connection.  The body may well never end, which would otherwise keep the
+// connection, and with it a graceful shutdown, hanging.
+func (s *Server) abandonRequestBody(w http.ResponseWriter) {
+	/* Not every ResponseWriter can do this, notably not test ones. */
+	http.NewResponseController(w).SetReadDeadline(time.Now())
 }
 
 // requestLogger returns a log.Logger which has information about r.
